@@ -55,8 +55,12 @@ def run(ck):
         values = [0, 1, 2, 3] if m == 4 or rng.random() < 0.3 else ([0, 3, 5, 6, 4, 7] if rng.random() < 0.5 else list(range(8)))
         c, a, sims, stim = sk.gen_case(rng, nrng, values)
         reuse, strip = rng.random() < 0.5, rng.random() < 0.5
+        used = i % 3 == 1       # on a simulator object that has already simulated another batch
+        lc.WARM['on'] = used
         res, err = sk.safe(lc.run_logicsim, c, m, stim, reuse, strip)
-        desc = {'circuit': cg.describe(c), 'm': m, 'c_reuse': reuse, 'strip_forks': strip, 'stimulus': stim.tolist()}
+        lc.WARM['on'] = False
+        desc = {'circuit': cg.describe(c), 'm': m, 'c_reuse': reuse, 'strip_forks': strip, 'stimulus': stim.tolist(), 'used_simulator': used}
+        ck.count(int(used), 'used-simulator rounds')
         ck.count(sims, f'm={m}')
         if err is not None:
             fails.append(('raises', desc, err[-400:]))
@@ -106,7 +110,9 @@ def replay(rp):
     inp = rp['input']
     c = cg.from_description(inp['circuit'])
     stim = np.array(inp['stimulus'], dtype=np.uint8)
+    lc.WARM['on'] = bool(inp.get('used_simulator'))
     res, err = sk.safe(lc.run_logicsim, c, inp['m'], stim, inp['c_reuse'], inp['strip_forks'])
+    lc.WARM['on'] = False
     if err is not None:
         return True
     sim, s1, s0 = res
